@@ -55,8 +55,18 @@ def gen_simulated(cap: int, kind: str, depth: int, num: int, seed: int, name: st
     return r.printed("HIST")
 
 
+_frozen = [False]
+
+
 def _task(a) -> Tuple[int, List[Dict[str, Any]]]:
     (idx, kind, cap, hist, pathset, base, alive) = a
+    if not _frozen[0]:
+        # the worker inherits the parent's heap (every generated history): keep it out of the
+        # gc.collect() calls that measure object retention, or each of them walks all of it
+        import gc
+        gc.collect()
+        gc.freeze()
+        _frozen[0] = True
     root = os.path.join(base, "s%d" % idx)
     handles = 1
     if kind.endswith("@2"):      # two store objects over the same directories
